@@ -1,5 +1,4 @@
-import DhcpProofs.Lemmas.LabelSound
-import DhcpProofs.Lemmas.LabelEnc
+import DhcpProofs.Lemmas.LabelApi
 /-
   C19 — domain-name label encoding round-trips and decoding follows RFC 1035.
   Property theorems only; helper lemmas live in DhcpProofs/Lemmas/Label*.lean.
@@ -83,18 +82,18 @@ theorem C19_roundtrip (ns : List Bytes) (h : ValidNames ns) : labelsFromBytes (l
 /-- Round trip through the `Labels` object: a fresh set with valid names,
 encoded and parsed again, carries the same names. -/
 theorem C19_roundtrip_labels (ns : List Bytes) (h : ValidNames ns) :
-    ∃ b, ({ Labels.new with labels := ns }).toBytes = .ok b ∧
+    ∃ b, ({ Labels.new with labels := ns }).toBytesR = .ok b ∧
       Labels.fromBytes (some b) = .ok { original := some b, labels := ns } := by
   refine ⟨labelsToBytes ns, ?_, ?_⟩
   · have : labelsFromBytes [] = .ok [] := by decide
-    simp [Labels.toBytes, Labels.new, goBytes, this]
+    simp [Labels.toBytesR, Labels.new, goBytes, this]
   · simp [Labels.fromBytes, goBytes, C19_roundtrip ns h]
 
 /-- **C19 (unmodified set re-emits its bytes).** A label set parsed from a
 buffer (nil or not) encodes to exactly that buffer — compression pointers,
 partial name and all. -/
 theorem C19_unmodified (d : Option Bytes) (l : Labels) (h : Labels.fromBytes d = .ok l) :
-    l.toBytes = .ok (goBytes d) := by
+    l.toBytesR = .ok (goBytes d) := by
   unfold Labels.fromBytes at h
   cases hd : labelsFromBytes (goBytes d) with
   | ok labs =>
@@ -110,8 +109,8 @@ theorem C19_unmodified (d : Option Bytes) (l : Labels) (h : Labels.fromBytes d =
         injection hd with hd
         exact hd.symm
       subst this
-      simp [Labels.toBytes, goBytes, e, labelsToBytes]
-    | some b => simp [Labels.toBytes, hd]
+      simp [Labels.toBytesR, goBytes, e, labelsToBytes]
+    | some b => simp [Labels.toBytesR, hd]
   | err => rw [hd] at h; cases h
   | panic => rw [hd] at h; cases h
 
@@ -120,7 +119,7 @@ set are replaced by a different list, `ToBytes` is the fresh encoding of the
 new list (and nothing of the original bytes). -/
 theorem C19_modified (d : Option Bytes) (l : Labels) (ns' : List Bytes)
     (h : Labels.fromBytes d = .ok l) (hne : ns' ≠ l.labels) :
-    ({ l with labels := ns' }).toBytes = .ok (labelsToBytes ns') := by
+    ({ l with labels := ns' }).toBytesR = .ok (labelsToBytes ns') := by
   unfold Labels.fromBytes at h
   cases hd : labelsFromBytes (goBytes d) with
   | ok labs =>
@@ -128,19 +127,31 @@ theorem C19_modified (d : Option Bytes) (l : Labels) (ns' : List Bytes)
     injection h with h
     subst h
     have : ¬ labs = ns' := fun e => hne e.symm
-    simp [Labels.toBytes, hd, this]
+    simp [Labels.toBytesR, hd, this]
   | err => rw [hd] at h; cases h
   | panic => rw [hd] at h; cases h
 
 /-- A set built with `NewLabels` (no original bytes) always encodes its names. -/
 theorem C19_modified_new (ns : List Bytes) :
-    ({ Labels.new with labels := ns }).toBytes = .ok (labelsToBytes ns) := by
+    ({ Labels.new with labels := ns }).toBytesR = .ok (labelsToBytes ns) := by
   have : labelsFromBytes [] = .ok [] := by decide
-  simp [Labels.toBytes, Labels.new, goBytes, this]
+  simp [Labels.toBytesR, Labels.new, goBytes, this]
+
+/-- The same two facts for the plain-function API the other codec models use
+(`fromBytes : Bytes → Res Labels`, `Labels.toBytes : Labels → Bytes`). -/
+theorem C19_unmodified_bytes (b : Bytes) (l : Labels) (h : fromBytes b = .ok l) : l.toBytes = b :=
+  fromBytes_toBytes h
+
+theorem C19_modified_bytes (b : Bytes) (l : Labels) (ns' : List Bytes) (h : fromBytes b = .ok l)
+    (hne : ns' ≠ l.labels) : ({ l with labels := ns' }).toBytes = labelsToBytes ns' :=
+  toBytes_of_labels_ne h hne
+
+/-- `ToBytes` is total: the panic-aware model returns `ok` of the plain one. -/
+theorem C19_toBytes_total (l : Labels) : l.toBytesR = .ok l.toBytes := toBytesR_eq l
 
 /-- `ToBytes` never panics, whatever the fields hold. -/
-theorem C19_toBytes_no_panic (l : Labels) : l.toBytes ≠ .panic := by
-  unfold Labels.toBytes
+theorem C19_toBytes_no_panic (l : Labels) : l.toBytesR ≠ .panic := by
+  unfold Labels.toBytesR
   cases h : labelsFromBytes (goBytes l.original) with
   | ok labs => simp only; split <;> simp
   | err => simp
@@ -172,8 +183,8 @@ example : labelsFromBytes [192, 2, 192, 0] = .err := by decide
 compressed buffer parses, re-emits itself, and after an edit encodes afresh. -/
 example : ∃ l, Labels.fromBytes (some [1, 97, 0, 1, 98, 192, 0]) = .ok l ∧
     l.labels = [[97], [98, 46, 97]] ∧
-    l.toBytes = .ok [1, 97, 0, 1, 98, 192, 0] ∧
-    ({ l with labels := [[98, 46, 97]] }).toBytes = .ok [1, 98, 1, 97, 0] :=
+    l.toBytesR = .ok [1, 97, 0, 1, 98, 192, 0] ∧
+    ({ l with labels := [[98, 46, 97]] }).toBytesR = .ok [1, 98, 1, 97, 0] :=
   ⟨⟨some [1, 97, 0, 1, 98, 192, 0], [[97], [98, 46, 97]]⟩, by decide, rfl, by decide, by decide⟩
 
 end Dhcp.Label
